@@ -268,6 +268,9 @@ func TestReplay(t *testing.T) {
 		// sample the scheduler until the case fails or the budget is used
 		for i := 0; i < replayRuns; i++ {
 			o := runConc(c)
+			if o.Fail != nil {
+				o.Fail.Msg += " | run " + fmt.Sprint(i+1) + ": " + concDetail
+			}
 			if o.Fail != nil || i == replayRuns-1 {
 				rec.Report(t, c, o)
 				return
